@@ -46,6 +46,11 @@ func newCWorld() *cWorld {
 		{Name: "name", Kind: world.KString}, {Name: "roles", Kind: world.KStringList}, {Name: "ver", Kind: world.KInt64P}, {Name: "tags", Kind: world.KMap}, {Name: "peer", Kind: world.KStringP}}})
 	w.places.AddScalarSymbols()
 	w.items.AddMapSymbol("tags", ast.NodeTypeAnyType, "tags")
+	// two map symbols below a common path that the application built once and re-uses (a slice with spare capacity)
+	extPath := make([]string, 0, 4)
+	extPath = append(extPath, "edge")
+	w.items.AddMapSymbol("deep", ast.NodeTypeAnyType, "deep", extPath...)
+	w.items.AddMapSymbol("wide", ast.NodeTypeAnyType, "wide", extPath...)
 	w.items.AddFkSymbol("peer", w.items) // a single-valued first hop in front of a set: peer.places.*
 	w.items.MakeSymbolPublic("tags")
 	w.items.AddIdSymbol("id", ast.NodeTypeString)
@@ -456,6 +461,102 @@ func C18(tier string) int {
 		}
 	}
 
+	// ---- two readers with DIFFERENT queries over elements of two map symbols registered below a shared path:
+	// the symbols one reader resolved must not be disturbed by the other reader resolving its own
+	{
+		path := dir + "/map.db"
+		if err := explore.CopyFile(base, path); err != nil {
+			panic(err)
+		}
+		mdb, err := boltz.Open(path, "root")
+		if err != nil {
+			panic(err)
+		}
+		if err := mdb.Update(nil, func(ctx boltz.MutateContext) error {
+			for i, id := range []string{"i1", "i2"} {
+				eb := w.items.GetEntityBucket(ctx.Tx(), []byte(id))
+				if eb == nil {
+					return fmt.Errorf("no entity bucket for %s", id)
+				}
+				ext := eb.GetOrCreatePath("edge")
+				deep := ext.GetOrCreatePath("deep")
+				deep.GetOrCreatePath("home").SetString("city", []string{"nyc", "sfo"}[i], nil)
+				deep.GetOrCreatePath("work").SetString("city", []string{"sfo", "nyc"}[i], nil)
+				deep.SetString("color", []string{"red", "blue"}[i], nil)
+				ext.GetOrCreatePath("wide").SetString("color", []string{"blue", "red"}[i], nil)
+				ext.GetOrCreatePath("wide").GetOrCreatePath("home").SetString("city", "lax", nil)
+				if ext.HasError() {
+					return ext.GetError()
+				}
+			}
+			return nil
+		}); err != nil {
+			panic(err)
+		}
+		queryPairs := [][2]string{
+			{`hook and deep.home.city = "nyc"`, `hook and wide.color = "red"`},
+			{`hook and deep.home.city = "nyc"`, `hook and deep.work.city = "nyc"`},
+			{`hook and deep.color = "red"`, `hook and wide.home.city = "lax" and wide.color = "red"`},
+		}
+		total := 0
+		for _, qp := range queryPairs {
+			qp := qp
+			read := func(tx *bbolt.Tx, text string) string {
+				q, err := ast.Parse(w.items, text)
+				if err != nil {
+					return "parse error: " + err.Error()
+				}
+				vsync.Yield("parsed")
+				ids, count, err := w.items.QueryIdsC(tx, q)
+				return fmt.Sprintf("%v/%d/%v", ids, count, err)
+			}
+			var want [2]string
+			for r := 0; r < 2; r++ {
+				_ = mdb.View(func(tx *bbolt.Tx) error { want[r] = read(tx, qp[r]); return nil })
+			}
+			if want[0] == want[1] {
+				panic("C18 harness: the two map-element queries must have different serial answers: " + want[0])
+			}
+			got := make([]string, 2)
+			ex3 := &vsched.Explorer{Bound: bound, MaxSteps: 4000, MaxExecs: 100000}
+			ex3.KeyFn = func() string { return strings.Join(got, "|") }
+			ex3.Body = func() func() {
+				got[0], got[1] = "", ""
+				return func() {
+					for r := 0; r < 2; r++ {
+						r := r
+						vsync.Go0(func() {
+							_ = mdb.View(func(tx *bbolt.Tx) error { got[r] = read(tx, qp[r]); return nil })
+						})
+					}
+				}
+			}
+			ex3.Check = func(x *vsched.Execution) {
+				rep.Count("transitions", int64(x.Steps))
+				replay := map[string]interface{}{"scenario": "two readers, elements of map symbols below a shared path", "queries": qp, "choices": x.Choices(), "schedule": x.Schedule()}
+				if x.Deadlock || len(x.Panics) > 0 || x.Hung != "" || x.Diverged != "" {
+					rep.Violation("C18|map-element-readers|abnormal", fmt.Sprintf("two readers: deadlock=%v panics=%v hung=%q diverged=%q", x.Deadlock, x.Panics, x.Hung, x.Diverged), replay)
+					return
+				}
+				for r := range got {
+					if got[r] != want[r] {
+						rep.Violation("C18|map-element-readers|wrong-answer|"+qp[r], fmt.Sprintf("reader %d evaluating %q while another reader evaluated %q got %s, serially %s", r, qp[r], qp[1-r], got[r], want[r]), replay)
+						return
+					}
+				}
+				rep.Outcome("map-element-readers-agree")
+			}
+			ex3.Explore()
+			total += ex3.Executions
+			if ex3.Capped {
+				rep.Capped("map-element readers: execution cap hit")
+			}
+		}
+		_ = mdb.Close()
+		rep.Count("states", int64(total))
+		rep.Set("schedules_map_element_readers", total)
+	}
+
 	// ---- helpers under every schedule and pool answer
 	c18Helpers(rep, w, bound)
 
@@ -463,6 +564,13 @@ func C18(tier string) int {
 	c18RacePass(rep, thorough)
 	rep.Count("traces_validated_against_impl", int64(ex.Executions))
 	return rep.Finish()
+}
+
+func pathOf(s boltz.EntitySymbol) string {
+	if s == nil {
+		return "<nil>"
+	}
+	return strings.Join(s.GetPath(), "/")
 }
 
 // helperBodies are the package-level helpers named by the property; each returns a printable result.
@@ -501,6 +609,15 @@ func helperBodies(w *cWorld) map[string]func() string {
 			s := w.items.GetSymbol("tags.j")
 			q, err := ast.Parse(w.items, `tags.j = 5`)
 			return fmt.Sprintf("%v/%v/%v", s != nil && s.GetName() == "tags.j", q, err)
+		},
+		// elements of two map symbols registered below one shared path (a caller-built slice with spare capacity)
+		"GetSymbol(nested element of a map below a shared path)": func() string {
+			s := w.items.GetSymbol("deep.home.city")
+			return fmt.Sprintf("%v/%v", s != nil && s.GetName() == "deep.home.city", pathOf(s))
+		},
+		"GetSymbol(element of the sibling map below the shared path)": func() string {
+			s := w.items.GetSymbol("wide.color")
+			return fmt.Sprintf("%v/%v", s != nil && s.GetName() == "wide.color", pathOf(s))
 		},
 		// public-symbol resolution, each call with an element name of the public map symbol that was never asked before
 		"IsPublicSymbol/ValidateSymbolsArePublic(fresh map element)": func() string {
